@@ -65,10 +65,13 @@ func C16_ExecuteTwice() {
 	pos0 := append([]int(nil), bcl.VerifPositions(p)...)
 	lfs0 := append([]int(nil), bcl.VerifLfs(p)...)
 	g0 := verif.GlobalWrites()
-	b1, bind1, e1 := bcl.Execute(p)
-	o1, l1 := out.String(), log.String()
-	out.Buf, log.Buf = nil, nil
-	b2, bind2, e2 := bcl.Execute(p)
+	stats := bcl.OptStats(verif.Bool("stats"))
+	sw := &symio.Writer{}
+	b1, bind1, e1 := bcl.Execute(p, stats, bcl.OptOutput(sw))
+	o1, l1, s1 := out.String(), log.String(), sw.String()
+	out.Buf, log.Buf, sw.Buf = nil, nil, nil
+	b2, bind2, e2 := bcl.Execute(p, stats, bcl.OptOutput(sw))
+	verif.Assert(s1 == sw.String(), "same statistics")
 	verif.Assert(verif.GlobalWrites() == g0, "no write to package-level state of the library")
 	same := bytes.Equal(code0, bcl.VerifCode(p)) && len(consts0) == len(bcl.VerifConsts(p)) &&
 		len(pos0) == len(bcl.VerifPositions(p)) && len(lfs0) == len(bcl.VerifLfs(p))
@@ -95,7 +98,7 @@ func C16_ExecuteTwice() {
 // goroutine schedule (dump and diagnostics recorded per input and required to
 // agree across all paths).
 func C16_Schedules() {
-	k := verif.Choice("input", len(c11Inputs))
+	k := verif.Choice("input", 5)
 	in := c11Inputs[k]
 	chunks := []int{7, 1000}
 	if verif.Tier() == 1 {
@@ -105,6 +108,16 @@ func C16_Schedules() {
 	var script []symio.Step
 	for i := 0; i*chunk < len(in.src); i++ {
 		script = append(script, symio.Step{N: chunk})
+	}
+	if verif.Choice("read-error", 2) == 1 {
+		// an I/O error on the third read, whatever the parser has found by then
+		if len(script) > 2 {
+			script = script[:2]
+		}
+		script = append(script, symio.Step{N: 0, Err: errC11})
+		// what was delivered before the error depends on the chunk size, so
+		// the outcome is recorded per (input, chunk size)
+		k += 100 + 1000*chunk
 	}
 	f := &symio.File{Data: []byte(in.src), Script: script, FileName: "f"}
 	out, log := &symio.Writer{}, &symio.Writer{}
@@ -128,7 +141,7 @@ type T16 struct {
 // order: keys colliding on one field, two named inner blocks of one type, two
 // faulty fields.
 func C16_MapOrder() {
-	c := verif.Choice("case", 4)
+	c := verif.Choice("case", 6)
 	var blk bcl.Block
 	switch c {
 	case 0: // two keys folding to one field
@@ -140,8 +153,12 @@ func C16_MapOrder() {
 		}}
 	case 2: // two faulty fields: the error must be the same one
 		blk = bcl.Block{Type: "t16", Fields: map[string]any{"nosuch": 1, "c": "wrong type", "ab": 5}}
-	default: // plain
+	case 3: // plain
 		blk = bcl.Block{Type: "t16", Name: "n", Fields: map[string]any{"ab": 1, "c": 2}}
+	case 4: // keys differing only in letter case
+		blk = bcl.Block{Type: "t16", Fields: map[string]any{"c": 1, "C": 2, "Ab": 3, "aB": 4}}
+	default: // two faulty keys differing only in case
+		blk = bcl.Block{Type: "t16", Fields: map[string]any{"y": 1, "Y": 2}}
 	}
 	var t T16
 	err := bcl.Bind(&t, bcl.StructBinding{Value: blk})
